@@ -31,10 +31,20 @@ ASSUMPTIONS = ['event listeners do not block or swallow CancelledError',
                'cells use a STREAM_STREAM method (every operation is legal); the deadline (64 s) lies beyond '
                'the observation window of "promptly"']
 
-SITE_OF_FUNC = {'send_request': 'send_request', 'send_data': 'send_data', 'end': 'end', 'reset': 'reset',
-                'recv_headers': 'recv_headers', 'recv_trailers': 'recv_trailers', 'read': 'recv_message'}
+def expected_event(site, reason):
+    """the synchronisation object a task suspended in protocol function `site` waits on"""
+    if site == 'send_request':
+        return 'stream_slot' if reason == 'slot' else 'write_ready'
+    if site == 'send_data':
+        return 'window' if reason == 'window' else 'write_ready'
+    return {'end': 'write_ready', 'reset': 'write_ready', 'recv_headers': 'headers',
+            'recv_trailers': 'trailers', 'recv_message': 'buffer'}.get(site, site)
+
+
 FAILING = {'none': None, 'h503': 14, 'tonly7': 7, 'trailers5': 5, 'trailers0': None, 'tonly0': None,
-           'trailers13': 13, 'tonly16': 16}
+           'trailers13': 13, 'tonly16': 16, 'h200': None, 'h200m': None}
+NATURAL = [('sr', 'paused'), ('sm', 'window'), ('en', 'paused'), ('ri', 'silent'), ('rm', 'silent'),
+           ('rt', 'silent'), ('ca', 'paused'), ('ax', 'silent'), ('cl', 'silent')]
 
 
 GOAWAY_CODES = [0, 1, 2, 11]            # NO_ERROR, PROTOCOL_ERROR, INTERNAL_ERROR, ENHANCE_YOUR_CALM
@@ -47,7 +57,7 @@ RST_CODES = [0, 1, 2, 5, 7, 8, 11]      # NO_ERROR ... STREAM_CLOSED, REFUSED_ST
 def base_cell(op, reason, event, order, deadline):
     variant = 'implicit' if (op == 'sm' and reason == 'slot' and order == 'during') else 'base'
     return {'op': op, 'reason': reason, 'event': event, 'order': order, 'deadline': deadline,
-            'status': 'none', 'variant': variant, 'holder': 'idle', 'violation': 'window'}
+            'status': 'none', 'variant': variant, 'holder': 'idle', 'violation': 'window', 'card': 'UU'}
 
 
 def matrix():
@@ -57,7 +67,7 @@ def matrix():
 
 def extra_cells(tier):
     out = []
-    statuses = ['h503', 'tonly7', 'trailers5', 'trailers0']
+    statuses = ['h503', 'tonly7', 'trailers5', 'trailers0', 'h200', 'h200m']
     if tier == 'thorough':
         statuses += ['tonly0', 'trailers13', 'tonly16']
     for st in statuses:
@@ -83,10 +93,40 @@ def extra_cells(tier):
                         c = base_cell(op, r, e, o, d)
                         c['variant'] = v
                         out.append(c)
+    # implicit predecessors: the server answers partially WHILE the operation waits, so that it moves on
+    # from its implicit first step (recv_message's recv_initial_metadata, the context exit's) to the next
+    for st in statuses:
+        for op in ('ri', 'rm', 'ax'):
+            for r in ('silent', 'paused'):
+                for e in U.EVENTS:
+                    for d in (False, True):
+                        c = base_cell(op, r, e, 'during', d)
+                        c['status'] = st
+                        c['progress'] = True
+                        out.append(c)
+    # the stub-style calls (ServiceMethod.__call__): send_message(end=True) with its implicit send_request,
+    # recv_message() with its implicit recv_initial_metadata, the context exit -- one task, no explicit steps
+    for card in ('UU', 'US', 'SU', 'SS'):
+        for r in U.REASONS:
+            for e in U.EVENTS:
+                for d in (False, True):
+                    out.append(dict(base_cell('cl', r, e, 'during', d), card=card))
+        for e in U.EVENTS:
+            out.append(dict(base_cell('cl', 'silent', e, 'before', False), card=card))
+            for st in (('h200', 'h200m', 'h503', 'trailers5') if card in ('UU', 'SU') else ('h200', 'h503')):
+                # (a streaming reply is iterated: after a first message the model's single recv_message
+                #  does not apply)
+                for d in (False, True):
+                    out.append(dict(base_cell('cl', 'silent', e, 'during', d), card=card, status=st))
+    # "the server breaks the protocol" as a CLASS: every kind of connection-level protocol error h2 raises
+    # out of receive_data, aimed at the call's own stream, another live stream, a finished stream, stream 0,
+    # an idle stream
+    for op, r in NATURAL:
+        for o in U.ORDERS:
+            for pe in U.PERR:
+                out.append(dict(base_cell(op, r, 'garbage', o, False), perr=pe))
     # GOAWAY and RST_STREAM as CLASSES of frames: every operation at its natural blocking point x both orders
-    natural = [('sr', 'paused'), ('sm', 'window'), ('en', 'paused'), ('ri', 'silent'), ('rm', 'silent'),
-               ('rt', 'silent'), ('ca', 'paused'), ('ax', 'silent')]
-    for op, r in natural:
+    for op, r in NATURAL:
         for o in U.ORDERS:
             for code in GOAWAY_CODES:
                 for last in GOAWAY_LAST:
@@ -111,7 +151,8 @@ def extra_cells(tier):
 
 
 def model_line(c):
-    return ' '.join([c['op'], c['reason'], c['event'], c['order'], '1' if c['deadline'] else '0',
+    op = c['op'] if c['op'] != 'cl' else 'cl.' + c.get('card', 'UU').lower()
+    return ' '.join([op, c['reason'], c['event'], c['order'], '1' if c['deadline'] else '0',
                      c['status'], c['variant']])
 
 
@@ -134,13 +175,16 @@ def compare(c, obs, m):
         return diff
     if obs['setup'] != 'ok':
         return diff
-    site = SITE_OF_FUNC.get(obs['site'], obs['site'])
-    if c['order'] == 'during' and site != m['blocked']:
-        diff.append(('blocked', site, m['blocked']))
-    if ('1' if obs['registered'] else '0') != m['registered']:
+    if c['order'] == 'during' and obs['blocked'] != 'unknown':
+        want = expected_event(m['blocked'], c['reason'])
+        if obs['blocked'] != want:
+            diff.append(('blocked', obs['blocked'], '%s (%s)' % (want, m['blocked'])))
+        if obs['opening'] != (m['blocked'] == 'send_request'):
+            diff.append(('opening', obs['opening'], m['blocked']))
+    if obs['registered'] != 'unknown' and ('1' if obs['registered'] else '0') != m['registered']:
         diff.append(('registered', obs['registered'], m['registered']))
     for k in ('werr', 'op', 'ctx'):
-        if obs[k] != m[k]:
+        if obs[k] != m[k] and obs[k] != 'unknown':
             diff.append((k, obs[k], m[k]))
     if obs['op'] == 'pending' and obs.get('late') != m['late']:
         diff.append(('late', obs.get('late'), m['late']))
@@ -155,9 +199,10 @@ def oracle(c, obs):
     if obs['setup'] != 'ok':
         return []
     level = 'stream' if c['event'] in ('rst', 'serr') else 'connection'
-    sig = {'op': c['op'], 'site': obs.get('stuck_site', obs.get('site', 'no')),
+    # `site`: still inside protocol.Stream.send_request (the peer has not seen the request) or past it
+    sig = {'op': c['op'], 'site': 'send_request' if obs.get('opening') else 'stream-open',
            'blocked_on': obs.get('stuck_on', obs.get('blocked', 'no')), 'event_level': level,
-           'order': c['order'], 'registered': bool(obs.get('registered'))}
+           'order': c['order'], 'registered': obs.get('registered') is True}
     name = U.OPNAME[c['op']]
     out = []
     if obs['op'] == 'pending':
@@ -174,7 +219,7 @@ def oracle(c, obs):
     want_ctx = 'StreamTerminated' if want is None else 'GRPCError:%d' % want
     if obs['op'] == 'ok':
         out.append(('%s completed WITHOUT an error after %s' % (name, c['event']), dict(sig, kind='no-error')))
-    elif c['op'] != 'ax' and obs['op'] != 'StreamTerminated' and not obs['op'].startswith('GRPCError'):
+    elif c['op'] not in ('ax', 'cl') and obs['op'] != 'StreamTerminated' and not obs['op'].startswith('GRPCError'):
         out.append(('%s failed with %s instead of a stream-termination error' % (name, obs['op']),
                     dict(sig, kind='wrong-error')))
     if obs['op'] != 'ok' and obs['ctx'] != want_ctx:
@@ -192,12 +237,15 @@ def check_cells(ctx, res, cells, compare_model=True):
         if obs['setup'] == 'ok':
             res.count('op:%s' % c['op'])
             res.count('event:%s' % c['event'])
+            if c['event'] == 'garbage':
+                res.count('protocol-error:%s' % c.get('perr', 'continuation@own'))
             if c.get('goaway') and c['event'] == 'goaway':
                 res.count('goaway:%s' % c['goaway'])
             res.count('order:%s' % c['order'])
             res.count('blocked_on:%s' % obs.get('blocked'))
             res.count('outcome:%s/%s' % (obs['op'].split(':')[0], obs['ctx'].split(':')[0]))
-            res.signatures.add((c['op'], c['reason'], c['event'], c.get('violation'), c.get('goaway'), c.get('rst_code'), c['order'], c['deadline'], c['status'],
+            res.signatures.add((c['op'], c.get('card'), c.get('progress'), c.get('perr'), c['reason'], c['event'],
+                                c.get('violation'), c.get('goaway'), c.get('rst_code'), c['order'], c['deadline'], c['status'],
                                 c['variant'], c['holder'], obs.get('blocked'), obs['op'], obs['ctx']))
             if obs.get('unhandled'):
                 res.count('loop-exception-handler-calls', obs['unhandled'])
@@ -292,6 +340,7 @@ def gen_multi(rng):
     after = [rng.choice(['sm', 'en', 'ri', 'rm', 'rt', 'ca']) for _ in range(rng.randint(0, 3))]
     return {'ops': ops, 'after': after, 'paused': paused, 'window': window, 'headers': headers,
             'event': rng.choice(U.EVENTS), 'deadline': rng.random() < 0.3,
+            'perr': rng.choice([p for p in U.PERR if not p.endswith('@other')]),
             'goaway': '%d/%s/%s' % (rng.choice(GOAWAY_CODES), rng.choice(GOAWAY_LAST), rng.choice('01')),
             'rst_code': rng.choice(RST_CODES)}
 
@@ -308,7 +357,9 @@ def run(ctx):
                 'that operation; no-stream-for-rst / rst-infeasible: no stream the peer could reset; call-unaffected: '
                 'send_request after the event opens a new connection); plus the same with a status already arrived '
                 '(503, trailers-only 7, trailers 5, trailers 0), send_message opening the stream itself, initial '
-                'metadata already received, the slot holder itself blocked; GOAWAY as a class (error code 0/1/2/11 x '
+                'metadata already received, the slot holder itself blocked; the server answering partially WHILE the '
+                'operation waits (implicit predecessors); the four stub-style calls (ServiceMethod.__call__); the '
+                'connection-level protocol error as a class (0 frame kinds x target streams); GOAWAY as a class (error code 0/1/2/11 x '
                 'last_stream_id 0 / highest seen / below the in-flight stream / 2**31-1 x debug data) and RST_STREAM '
                 'with 7 error codes, for every operation at its natural blocking point in both orders; plus PRNG groups of concurrent '
                 'operations of one call, each its own task, plus operations started after the event (per-task outcome '
@@ -347,5 +398,6 @@ def replay(ctx, case):
         c.setdefault('variant', 'base')
         c.setdefault('holder', 'idle')
         c.setdefault('violation', 'window')
+        c.setdefault('card', 'UU')
         check_cells(ctx, res, [c])
     return res
